@@ -13,6 +13,8 @@ import (
 	"strconv"
 	"strings"
 	"sync"
+	"sync/atomic"
+	"syscall"
 	"time"
 )
 
@@ -40,8 +42,17 @@ type Result struct {
 func NewResult() *Result {
 	return &Result{Counters: map[string]int64{}, Sets: map[string]map[string]bool{}}
 }
-func (r *Result) Count(name string, d int64) { r.Counters[name] += d }
+
+// progress is bumped by every Count / Add / Sample / Violate of a worker; the worker publishes it in a heartbeat file and
+// the driver treats a worker whose value stops changing for stallLimit as hung (a call into the node did not return).
+var progress atomic.Int64
+
+// Tick lets a long silent phase of a check (a search loop that records nothing) tell the driver that it is alive.
+func Tick() { progress.Add(1) }
+
+func (r *Result) Count(name string, d int64) { progress.Add(1); r.Counters[name] += d }
 func (r *Result) Add(set, elem string) bool {
+	progress.Add(1)
 	s := r.Sets[set]
 	if s == nil {
 		s = map[string]bool{}
@@ -54,6 +65,7 @@ func (r *Result) Add(set, elem string) bool {
 	return true
 }
 func (r *Result) Sample(v interface{}) {
+	progress.Add(1)
 	if len(r.Samples) < 4 {
 		r.Samples = append(r.Samples, v)
 	}
@@ -436,9 +448,53 @@ func runWorker(chk *Check, tier string, sh, nsh int, base string, deadline time.
 	cmd.Stdout = logf
 	cmd.Stderr = logf
 	cmd.Env = append(os.Environ(), "VERIF_WORKER=1")
-	err := cmd.Run()
+	err := cmd.Start()
+	stalled := time.Duration(0)
+	if err == nil {
+		done := make(chan error, 1)
+		go func() { done <- cmd.Wait() }()
+		limit := stallLimit()
+		last, lastChange := "", time.Now()
+		tick := time.NewTicker(5 * time.Second)
+	wait:
+		for {
+			select {
+			case err = <-done:
+				break wait
+			case <-tick.C:
+				hb, _ := os.ReadFile(out + ".hb")
+				if string(hb) != last {
+					last, lastChange = string(hb), time.Now()
+				} else if idle := time.Since(lastChange); idle > limit {
+					// no recorded progress for `limit`: ask the Go runtime for a goroutine dump (SIGQUIT), then make sure it is gone
+					stalled = idle
+					cmd.Process.Signal(syscall.SIGQUIT)
+					select {
+					case err = <-done:
+					case <-time.After(10 * time.Second):
+						cmd.Process.Kill()
+						err = <-done
+					}
+					break wait
+				}
+			}
+		}
+		tick.Stop()
+	}
 	logf.Close()
 	res := NewResult()
+	if stalled > 0 {
+		dump := tailOf(logPath, 60000)
+		if i := strings.Index(dump, "SIGQUIT"); i >= 0 {
+			dump = dump[i:]
+		}
+		keep := filepath.Join(VerifRoot, ".work", fmt.Sprintf("stalled-%s-w%d.log", chk.ID, sh))
+		os.WriteFile(keep, []byte(dump), 0o644)
+		res.Violate(chk.ID+":stalled:a-call-into-the-node-did-not-return", fmt.Sprintf("worker %d of %d (%s tier) recorded no progress for %v and was stopped; on the unchanged tree every operation of this check returns within seconds. Goroutines that were inside go-zenon at that moment:\n%s\n(full dump: %s)",
+			sh, nsh, tier, stalled.Round(time.Second), zenonFrames(dump, 40), keep), map[string]interface{}{"stalled_shard": sh, "shards": nsh, "tier": tier})
+		res.Incomplete = true
+		return res
+	}
 	data, rerr := os.ReadFile(out)
 	if rerr == nil {
 		if jerr := json.Unmarshal(data, res); jerr != nil {
@@ -455,6 +511,32 @@ func runWorker(chk *Check, tier string, sh, nsh int, base string, deadline time.
 		}
 	}
 	return res
+}
+
+// stallLimit: how long a worker may go without recording anything before it is considered hung (VERIF_STALL_S, default 600 s).
+func stallLimit() time.Duration {
+	if v, err := strconv.Atoi(os.Getenv("VERIF_STALL_S")); err == nil && v > 0 {
+		return time.Duration(v) * time.Second
+	}
+	return 10 * time.Minute
+}
+
+// zenonFrames keeps the lines of a goroutine dump that name a go-zenon function (and the goroutine headers), up to n lines.
+func zenonFrames(dump string, n int) string {
+	var out []string
+	for _, l := range strings.Split(dump, "\n") {
+		if strings.HasPrefix(l, "goroutine ") || (strings.Contains(l, "zenon-network/go-zenon/") && !strings.HasPrefix(l, "\t")) {
+			if strings.HasPrefix(l, "goroutine ") && len(out) > 0 && strings.HasPrefix(out[len(out)-1], "goroutine ") {
+				out[len(out)-1] = l // a goroutine without go-zenon frames: drop its header
+				continue
+			}
+			out = append(out, l)
+			if len(out) >= n {
+				break
+			}
+		}
+	}
+	return strings.Join(out, "\n")
 }
 
 func headOf(path string, n int) string {
@@ -508,6 +590,12 @@ func workerMain(a []string) {
 		}
 		c.Replay = rep.Replay
 	}
+	go func() { // heartbeat: the driver watches this value
+		for {
+			os.WriteFile(a[4]+".hb", []byte(strconv.FormatInt(progress.Load(), 10)), 0o644)
+			time.Sleep(2 * time.Second)
+		}
+	}()
 	res := NewResult()
 	func() {
 		defer func() {
